@@ -8,8 +8,19 @@ import shutil
 import sys
 
 VERIF = os.path.dirname(os.path.dirname(os.path.abspath(__file__)))
-PAIRS = [('/tmp/seed_batch2.sh', '/tmp/seedrun_final.log'), ('/tmp/seed_batch3.sh', '/tmp/seedrun_final3.log')]
-CONF = '/tmp/confirm_seeds.log'
+ROUND = sys.argv[1] if len(sys.argv) > 1 else '1'
+if ROUND == '1':
+    PAIRS = [('/tmp/seed_batch2.sh', '/tmp/seedrun_final.log'), ('/tmp/seed_batch3.sh', '/tmp/seedrun_final3.log')]
+    CONF = '/tmp/confirm_seeds.log'
+    SRC = '/tmp/seed_%s/out'
+    NAME = '%s_%d'
+    LOGPREFIX = 'out/patch'
+else:
+    PAIRS = [('/tmp/seed2_batch.sh', '/tmp/seedrun2.log'), ('/tmp/seed2_batch3.sh', '/tmp/seedrun2b.log')]
+    CONF = '/tmp/confirm_seeds2.log'
+    SRC = '/tmp/seedout2_%s'
+    NAME = '%s_r2_%d'
+    LOGPREFIX = 'seedout2_'
 
 
 def main():
@@ -20,22 +31,25 @@ def main():
             m = re.match(r'run (C\d+) patch(\d) (.*)', l.strip())
             if m:
                 runs.append((m.group(1), int(m.group(2)), m.group(3).split()))
-        lines = [l for l in open(DETLOG) if l.startswith('out/patch')]
+        lines = [l for l in open(DETLOG) if l.startswith(LOGPREFIX)]
         i = 0
         fresh = {}
+        merged_prev = results
         for p, k, checks in runs:
             for c in checks:
                 if i >= len(lines):
                     break
                 l = lines[i]
                 i += 1
-                m = re.match(r'out/patch(\d)\.diff (C\d+) (\S+) \((\d+)s\) ?(.*)', l)
+                m = re.match(r'\S*patch(\d)\.diff (C\d+) (\S+) \((\d+)s\) ?(.*)', l)
                 if not m or int(m.group(1)) != k or m.group(2) != c:
                     print('log/script mismatch at', p, k, c, l[:80])
                     continue
                 fresh.setdefault((p, k), []).append({'check': c, 'verdict': m.group(3), 'seconds': int(m.group(4)),
                                                      'what': m.group(5)[:160]})
-        results.update(fresh)  # a later batch replaces the earlier runs of the same seed
+        for key, rs in fresh.items():
+            old = [r for r in results.get(key, []) if r['check'] not in {x['check'] for x in rs}]
+            results[key] = old + rs  # a later run of the same check replaces the earlier one
     conf = {}
     for l in open(CONF):
         m = re.match(r'(C\d+)/(\d) place=(\S+) build=\[(.*?)\] suite1=\[(.*?)\] suite2=\[(.*?)\] with=\[(.*?)\] without=\[(.*?)\]', l)
@@ -47,11 +61,11 @@ def main():
     os.makedirs(out, exist_ok=True)
     rows = []
     for (p, k), res in sorted(results.items()):
-        src = '/tmp/seed_%s/out' % p
+        src = SRC % p
         cf = conf.get((p, k))
         ok = cf is not None and cf['build'] == '' and cf['demo_with_change'].startswith('FAIL') and cf['demo_without_change'].startswith('ok') \
             and (cf['suite_first_run'] == '' or cf['suite_second_run'] == '')
-        name = '%s_%d' % (p, k)
+        name = NAME % (p, k)
         d = os.path.join(out, name)
         if not ok:
             rows.append((name, 'NOT CONFIRMED', cf))
@@ -79,7 +93,7 @@ def main():
         }
         json.dump(meta, open(os.path.join(d, 'meta.json'), 'w'), indent=1)
         rows.append((name, ','.join(detected_by) or 'MISSED', [r['check'] + ':' + r['verdict'] for r in res]))
-    with open(os.path.join(out, 'README.md'), 'w') as f:
+    with open(os.path.join(out, 'README.md' if ROUND == '1' else 'README_round2.md'), 'w') as f:
         f.write('# Seeded changes\n\nWritten by fresh sub-agents that saw only the property text and a scratch worktree; each was confirmed '
                 'independently (builds, existing suite passes, demonstration fails with the change and passes without) and then run against '
                 'the checks with `tools/seedrun.py`. The demonstration tests are stored as `demo_test.go.txt` so that no Go tool picks them up.\n\n'
